@@ -221,6 +221,17 @@ class Program:
                     self.trait_impls[(strip_generics(tr), name)].append(key)
         self._callgraph = None
         self._closures_of = None
+        # functions that only ever return Err: `return fail(..)` in a caller is an error exit (prim.error_points)
+        from . import prim as _P
+        _P.ALWAYS_ERR.clear()
+        for fn in self.fns.values():
+            if fn.kind != "Closure" and fn.locals and fn.locals[0].startswith("core::result::Result<"):
+                try:
+                    if _P.always_err(fn):
+                        _P.ALWAYS_ERR.add(fn.key)
+                        _P.ALWAYS_ERR.add(fn.skey)
+                except Exception:
+                    pass
 
     # ------------------------------------------------------------------------------------------
     def fn(self, key):
